@@ -8,9 +8,10 @@ One model step = one API call; third-party operations (`EnvOp`) can be scheduled
 PKO write ("between PKO's read and its write"), see `World`.
 -/
 import Pko.Kube.Store
+import Pko.Model.Status
 
 namespace Pko.Model.Phase
-open Pko.Kube
+open Pko.Kube Pko.Model.Status
 
 inductive Strategy where
   | native | annotation
@@ -221,11 +222,43 @@ inductive Event where
   | delete (k : Key) (preUID preRV : Nat) (res : Option ApiErr)
   deriving Repr, Inhabited
 
+/-- An ObjectSetPhase / ClusterObjectSetPhase API object (a delegated phase). -/
+structure OPhase where
+  name : String
+  uid : String
+  gen : Nat
+  rv : Nat
+  deleting : Bool
+  finCached : Bool
+  ctrlName : String           -- controlling ObjectSet (ownerReference with controller=true)
+  ctrlUID : String
+  pkgLabel : String
+  paused : Bool               -- spec.paused
+  revision : Nat              -- spec.revision
+  previous : List String      -- spec.previous
+  objs : List PObj            -- spec.objects
+  conds : List Cond           -- status.conditions
+  controllerOf : List CRef    -- status.controllerOf
+  deriving DecidableEq, Repr, Inhabited
+
+/-- A write on an ObjectSetPhase object. -/
+inductive PhaseEvent where
+  | create (name : String) (res : Option ApiErr)
+  | pausePatch (name : String) (paused : Bool) (res : Option ApiErr)
+  | delete (name : String) (res : Option ApiErr)
+  | finalizerPatch (name : String) (add : Bool) (res : Option ApiErr)
+  | statusUpdate (name : String) (res : Option ApiErr) (conds : List Cond) (controllerOf : List CRef)
+  deriving Repr, Inhabited
+
 structure World where
   store : Store
   writes : Nat                       -- number of PKO writes issued so far
   env : List (Nat × EnvOp)           -- third-party op scheduled right before PKO write number n
   events : List Event                -- log (newest last)
+  -- delegated phases (only touched by the Remote model; invisible to the phase reconciler)
+  phases : String → Option OPhase := fun _ => none
+  phaseEvents : List PhaseEvent := []
+  remoteRefs : List (String × String) := []   -- RemotePhaseReferences collected during a pass
 
 /-- Run the third-party operations scheduled before the next PKO write. -/
 def World.beforeWrite (w : World) : World :=
